@@ -19,3 +19,4 @@ import GeoVerif.Properties.C16
 import GeoVerif.Properties.C17
 import GeoVerif.Properties.C18
 import GeoVerif.Properties.C19
+import GeoVerif.Properties.C20
